@@ -23,6 +23,27 @@ import (
 // is provided for a graph with inadmissible color assignments.
 var ErrInvalidPartialColoring = errors.New("coloring: invalid partial coloring")
 
+// nodesOf returns an iterator of known length over the nodes of g.
+// The length of the iterator returned by g.Nodes may be indeterminate.
+func nodesOf(g graph.Undirected) *iterator.OrderedNodes {
+	return iterator.NewOrderedNodes(graph.NodesOf(g.Nodes()))
+}
+
+// degreeOf returns the number of nodes adjacent to the node with the
+// given ID, counting them if the length of the iterator is indeterminate.
+func degreeOf(g graph.Undirected, id int64) int {
+	to := g.From(id)
+	n := to.Len()
+	if n >= 0 {
+		return n
+	}
+	n = 0
+	for to.Next() {
+		n++
+	}
+	return n
+}
+
 // Sets returns the mapping from colors to sets of node IDs. Each set of
 // node IDs is sorted by ascending value.
 func Sets(colors map[int64]int) map[int][]int64 {
@@ -43,7 +64,7 @@ func Sets(colors map[int64]int) map[int][]int64 {
 // ErrInvalidPartialColoring.
 // See Brélaz doi:10.1145/359094.359101 for details of the algorithm.
 func Dsatur(g graph.Undirected, partial map[int64]int) (k int, colors map[int64]int, err error) {
-	nodes := g.Nodes()
+	nodes := nodesOf(g)
 	n := nodes.Len()
 	if n == 0 {
 		return
@@ -94,7 +115,7 @@ func DsaturExact(term Terminator, g graph.Undirected) (k int, colors map[int64]i
 	// easiest branch of the search tree. This will be the maximum
 	// clique with the lowest degree into the remainder of the graph.
 
-	nodes := g.Nodes()
+	nodes := nodesOf(g)
 	n := nodes.Len()
 	if n == 0 {
 		return
@@ -320,7 +341,7 @@ func colorClique(clique []graph.Node) map[int64]int {
 // coloring if possible. Otherwise Randomized will return
 // ErrInvalidPartialColoring.
 func Randomized(g graph.Undirected, partial map[int64]int, src rand.Source) (k int, colors map[int64]int, err error) {
-	nodes := g.Nodes()
+	nodes := nodesOf(g)
 	n := nodes.Len()
 	if n == 0 {
 		return
@@ -354,12 +375,11 @@ func randomize(it graph.Nodes, src rand.Source) graph.Nodes {
 // First coloring algorithm.
 // See Leighton doi:10.6028/jres.084.024 for details of the algorithm.
 func RecursiveLargestFirst(g graph.Undirected) (k int, colors map[int64]int) {
-	it := g.Nodes()
-	n := it.Len()
+	nodes := graph.NodesOf(g.Nodes())
+	n := len(nodes)
 	if n == 0 {
 		return
 	}
-	nodes := graph.NodesOf(it)
 	colors = make(map[int64]int)
 
 	// The names of variable here have been changed from the original PL-1
@@ -376,7 +396,7 @@ func RecursiveLargestFirst(g graph.Undirected) (k int, colors map[int64]int) {
 	for i, u := range nodes {
 		uid := u.ID()
 		indexOf[uid] = i
-		boundary[i] = g.From(uid).Len()
+		boundary[i] = degreeOf(g, uid)
 	}
 	deleteFrom := func(vec []int, idx int) {
 		vec[idx] = -1
@@ -454,7 +474,7 @@ func RecursiveLargestFirst(g graph.Undirected) (k int, colors map[int64]int) {
 // SanSegundo will return ErrInvalidPartialColoring.
 // See San Segundo doi:10.1016/j.cor.2011.10.008 for details of the algorithm.
 func SanSegundo(g graph.Undirected, partial map[int64]int) (k int, colors map[int64]int, err error) {
-	nodes := g.Nodes()
+	nodes := nodesOf(g)
 	n := nodes.Len()
 	if n == 0 {
 		return
@@ -476,7 +496,7 @@ func SanSegundo(g graph.Undirected, partial map[int64]int) (k int, colors map[in
 // ErrInvalidPartialColoring.
 // See Welsh and Powell doi:10.1093/comjnl/10.1.85 for details of the algorithm.
 func WelshPowell(g graph.Undirected, partial map[int64]int) (k int, colors map[int64]int, err error) {
-	nodes := g.Nodes()
+	nodes := nodesOf(g)
 	n := nodes.Len()
 	if n == 0 {
 		return
@@ -495,7 +515,7 @@ func byDescendingDegree(it graph.Nodes, g graph.Undirected) graph.Nodes {
 	nodes := graph.NodesOf(it)
 	n := byDescDegree{nodes: nodes, degrees: make([]int, len(nodes))}
 	for i, u := range nodes {
-		n.degrees[i] = g.From(u.ID()).Len()
+		n.degrees[i] = degreeOf(g, u.ID())
 	}
 	sort.Sort(n)
 	return iterator.NewOrderedNodes(nodes)
@@ -717,7 +737,7 @@ func newSaturationDegree(it graph.Nodes, g graph.Undirected, colors map[int64]in
 		colors:    colors,
 	}
 	for i, u := range nodes {
-		sd.degrees[i] = g.From(u.ID()).Len()
+		sd.degrees[i] = degreeOf(g, u.ID())
 		sd.adjColors[i] = make(set.Ints[int])
 		sd.indexOf[u.ID()] = i
 	}
